@@ -260,13 +260,23 @@ def c12(ck, tmp):
         out = os.path.join(tmp, "r.out")
         cores = rng.choice([1, 1, 2])
         os.environ["GAFTOOLS_VERIF_BATCH_SIZE"] = str(rng.choice([2, 3, 1000]))
+        # resource guards for this call: worker processes inherit a 6 GiB address-space limit (an aligner fed with the wrong
+        # sequences needs memory quadratic in the distance) and the whole call has five minutes
+        import resource
+        import multiprocessing
+        soft, hard = resource.getrlimit(resource.RLIMIT_AS)
         try:
-            tool("realign", allow_stdout=True, gaf=gaf, graph=gfa, fasta=fa, output=out, cores=cores)
+            resource.setrlimit(resource.RLIMIT_AS, (6 << 30, hard))
+            with watchdog(300):
+                tool("realign", allow_stdout=True, gaf=gaf, graph=gfa, fasta=fa, output=out, cores=cores)
             olines = open(out).read().splitlines()
         except BaseException as e:  # noqa
+            for ch in multiprocessing.active_children():
+                ch.kill()
             ck.violation("realign crashed: %s: %s" % (type(e).__name__, e), {"gfa": text[:5000], "gaf": [l[:300] for l in lines]})
             continue
         finally:
+            resource.setrlimit(resource.RLIMIT_AS, (soft, hard))
             if os.path.exists(gaf):
                 os.remove(gaf)
         if len(olines) != len(lines):
@@ -296,6 +306,76 @@ def c12(ck, tmp):
 
 
 # ---------------------------------------------------------------------------------------------------- real processes
+def long_record_runs(ck, tmp):
+    """records of more than 60 000 read bases (passed through unchanged) among ordinary ones, real processes: the file must
+    hold one record per input record, in input order, for every core count - in particular when such records END the file
+    after an exact multiple of batch size x cores ordinary records, or are the only records"""
+    import gen as G
+    from p_graph import tokenize_gfa  # noqa: F401
+    rng = ck.rng
+    long_seq = G.rseq(rng, 60400)
+    segs = [("L1", long_seq), ("a", G.rseq(rng, 30)), ("b", G.rseq(rng, 25)), ("c", G.rseq(rng, 40))]
+    gfa = os.path.join(tmp, "long.gfa")
+    so = 0
+    with open(gfa, "w") as f:
+        for i, sq in segs:
+            f.write("S\t%s\t%s\tLN:i:%d\tSN:Z:chrL\tSO:i:%d\tSR:i:0\n" % (i, sq, len(sq), so))
+            so += len(sq)
+        for (a, _), (b, _) in zip(segs, segs[1:]):
+            f.write("L\t%s\t+\t%s\t+\t0M\n" % (a, b))
+    seqd = dict(segs)
+
+    def rec(name, long_):
+        if long_:
+            a, b = 50, 50 + 60001 + rng.randint(0, 200)
+            q = long_seq[a:b]
+            return G.gaf_record(name, len(q), 0, len(q), "+", ">L1", len(long_seq), a, b, len(q), len(q), 60, ["cg:Z:%d=" % len(q)]), q
+        path = rng.choice([[("a", "+"), ("b", "+")], [("b", "+"), ("c", "+")], [("a", "+")], [("c", "-")]])
+        pseq = "".join(seqd[n] if o == "+" else G.rc(seqd[n]) for n, o in path)
+        a = rng.randrange(0, len(pseq) - 5)
+        b = rng.randrange(a + 3, len(pseq) + 1)
+        q = pseq[a:b]
+        return G.gaf_record(name, len(q), 0, len(q), "+", G.path_str(path), len(pseq), a, b, len(q), len(q), 60, ["cg:Z:%d=" % len(q)]), q
+    shapes = [("only-long", 2, 2, [True, True]),
+              ("full-groups-then-long", 2, 2, [False] * 4 + [True]),
+              ("full-group-then-long-one-core", 3, 1, [False] * 3 + [True, True]),
+              ("long-in-the-middle", 2, 2, [False, True, False, False, True, False, False])]
+    for tag, bs, cores, kinds in shapes:
+        recs = [rec("lr%d" % i, k) for i, k in enumerate(kinds)]
+        gaf = os.path.join(tmp, "long.gaf")
+        fa = os.path.join(tmp, "long.fa")
+        for f in (fa + ".fai",):
+            if os.path.exists(f):
+                os.remove(f)
+        G.write_text(gaf, "".join(l + "\n" for l, _ in recs))
+        G.write_text(fa, "".join(">lr%d\n%s\n" % (i, q) for i, (_, q) in enumerate(recs)))
+        outs = {}
+        for c in sorted({1, cores}):
+            os.environ["GAFTOOLS_VERIF_BATCH_SIZE"] = str(bs)
+            out = os.path.join(tmp, "long.out%d" % c)
+            try:
+                with watchdog(240):
+                    tool("realign", gaf=gaf, graph=gfa, fasta=fa, output=out, cores=c)
+                outs[c] = open(out).read().splitlines()
+            except BaseException as e:  # noqa
+                outs[c] = "crash: %s: %s" % (type(e).__name__, e)
+        ck.count("long-records:%s" % tag)
+        ck.case({"long": tag}, True)
+        replay = {"shape": tag, "batch_size": bs, "cores": cores, "records": ["> 60 000 read bases" if k else "ordinary" for k in kinds],
+                  "outputs": {str(c): (o if isinstance(o, str) else [l[:80] for l in o]) for c, o in outs.items()}}
+        for c, o in outs.items():
+            if isinstance(o, str):
+                ck.violation("realign failed on a file with records of more than 60 000 read bases (%s, cores=%d): %s" % (tag, c, o), replay)
+                break
+            names = [l.split("\t")[0] for l in o]
+            if names != ["lr%d" % i for i in range(len(kinds))]:
+                ck.violation("realign does not write one record per input record in input order when records of more than 60 000 read bases are present (%s, cores=%d): wrote %s" % (tag, c, names), replay)
+                break
+        else:
+            if len({tuple(o) for o in outs.values()}) != 1:
+                ck.violation("realign output with %d cores differs from the single-core output (%s)" % (cores, tag), replay)
+
+
 def real_runs(ck, prop, tmp, inputs, n):
     """supporting evidence with the REAL multiprocessing: workers sleep at random (C11) or one worker dies at a chosen point by
     os._exit / SIGKILL / an uncaught exception (C13); a watchdog turns a hang into a violation"""
@@ -508,6 +588,7 @@ def main(prop):
         real_runs(ck, prop, tmp, inputs, 4 if quick else 80)
         if prop == "C11":
             default_batch_runs(ck, tmp, [2] if quick else [2, 3, 4])
+            long_record_runs(ck, tmp)
     finally:
         os.environ.pop("GAFTOOLS_VERIF_BATCH_SIZE", None)
         shutil.rmtree(tmp, ignore_errors=True)
